@@ -98,6 +98,7 @@ structure Sto where
   log : List Frame := []      -- frames stored in the current run (ghost, = what the mock records)
   base : Nat := 0             -- ghost: bytes committed to `sink.in` when this run of the storage was started
   clean : Bool := true        -- ghost: the sink's reader had consumed everything at that moment
+  appended : Nat := 0         -- ghost: stream position up to which the frames of `sink.in` have been appended in this run
   appendsAfterFailure : Nat := 0   -- ghost: appends that reached the driver after a failed one
 deriving Repr, Inhabited
 
@@ -350,7 +351,7 @@ def snkActs (s : Nat) : List (Act Stream) := [
                                snk := { st.snk with pc := .error } },
     out := fun st => [s!"DRV {stoDev s} append call={st.sto.nappend} bytes={st.snk.len} frames={(snkFrames st).length} -> armed (fault)"] },
   { name := "snk.append.ok", guard := fun st => st.snk.pc = .append && !stoFault st,
-    upd := fun st => { st with sto := { st.sto with nappend := st.sto.nappend + 1, log := st.sto.log ++ snkFrames st,
+    upd := fun st => { st with sto := { st.sto with nappend := st.sto.nappend + 1, log := st.sto.log ++ snkFrames st, appended := st.snk.idx + st.snk.len,
                                                       appendsAfterFailure := st.sto.appendsAfterFailure + (if st.sto.failed then 1 else 0) },
                                snk := { st.snk with pc := .runmapLock } },
     out := fun st => [s!"DRV {stoDev s} append call={st.sto.nappend} bytes={st.snk.len} frames={(snkFrames st).length} -> running"] },
